@@ -61,7 +61,7 @@ Fix(e) ==
   CASE e.op = "handle" -> [op |-> "handle", t |-> e.t, k |-> e.k, acc |-> SeqToSet(e.acc),
                            rd |-> IF ChangedSet(e) = {} THEN "atomic" ELSE "partial"]
     [] e.op = "create" -> [op |-> "create", via |-> e.via, by |-> e.by, acc |-> SeqToSet(e.acc), login |-> e.login,
-                           want |-> SeqToSet(e.want)]
+                           want |-> SeqToSet(e.want), shape |-> e.shape]
     [] e.op = "kick"   -> [op |-> "kick", acc |-> SeqToSet(e.acc), tacc |-> SeqToSet(e.tacc), ban |-> e.ban,
                            third |-> e.third, pacc |-> SeqToSet(e.pacc)]
     [] e.op = "rt"     -> [op |-> "rt", S |-> SeqToSet(e.S)]
@@ -113,7 +113,7 @@ CreateProblems(e, s, mrep, maccts) ==
       memS == IF inMem THEN FromBytes(e.mem) ELSE {}
       diskS == IF onDisk THEN FromBytes(e.disk) ELSE {}
       created == s.login \in DOMAIN maccts
-      d == [creator |-> s.acc, want |-> s.want, via |-> s.via, reply |-> e.reply,
+      d == [creator |-> s.acc, want |-> s.want, via |-> s.via, shape |-> s.shape, reply |-> e.reply,
             mem |-> IF inMem THEN memS ELSE {-1}, disk |-> IF onDisk THEN diskS ELSE {-1}]
   IN
   (IF inMem /\ ~(memS \subseteq s.acc)
@@ -122,10 +122,11 @@ CreateProblems(e, s, mrep, maccts) ==
      THEN <<P("VIOL", "C06", "amplified-on-disk", [d EXCEPT !.disk = diskS \ s.acc])>> ELSE <<>>)
   \o (IF (inMem \/ onDisk) /\ 14 \notin s.acc
      THEN <<P("VIOL", "C05", "account-created-without-privilege", d)>> ELSE <<>>)
-  \o (IF created /\ (~inMem \/ ~onDisk) THEN <<P("DRIFT", "C06", "permitted creation did not happen", d)>> ELSE <<>>)
+  \o (IF created /\ (~inMem \/ ~onDisk) /\ (s.shape = "full" \/ e.reply = "ok")   \* (an odd field shape may be rejected)
+        THEN <<P("DRIFT", "C06", "permitted creation did not happen", d)>> ELSE <<>>)
   \o (IF ~created /\ (inMem \/ onDisk) /\ 14 \in s.acc /\ memS \subseteq s.acc /\ diskS \subseteq s.acc
      THEN <<P("DRIFT", "C06", "account exists although the model refuses", d)>> ELSE <<>>)
-  \o (IF created /\ inMem /\ onDisk /\ (memS # s.want \/ diskS # s.want \cap Defined)
+  \o (IF created /\ inMem /\ onDisk /\ (memS # EffWant(s) \/ diskS # EffWant(s) \cap Defined)
      THEN <<P("DRIFT", "C06", "created account differs from the request", d)>> ELSE <<>>)
 
 KickProblems(e, s, mlive, mbanned) ==
